@@ -165,33 +165,33 @@ _STMT_MODEL_NOTE = ("Trusted: Lean kernel; the hand-written statement model (lea
 PROPS["C01"] = dict(
     groups=["token", "escape", "quote"],
     lean_props=["SeaQ.Props.C01"],
-    lean_obligations=["SeaQ.Lemmas.Scan"],
-    technique="Lean 4 proof over the statement rendering model: for every piece list (unbounded), the values returned are the parameter pieces' values in order (no hypothesis), and under the decidable Safe discipline the engine-side reading of the parameterised text is the piece-wise one, so the placeholders outside quoted text are ?xn / $1..$n ascending, one per value; model tied to the crate by differential runs of generated statements through build / build_any / build_collect*, with an independent reference-lexer oracle on the crate's output",
-    level_text="Machine-checked for every piece list, hence for the rendering of every statement of the model (any nesting): (textP ps).values = parameter pieces in order; Safe ps -> segment(text) = piece-wise items, placeholders = expectedMarks n. The theorem covers caller-supplied raw text only when it is plain (no quotes / marks); Safe of the rendering is evaluated by the model on every generated statement with plain raw text and must hold.",
+    lean_obligations=["SeaQ.Lemmas.Scan", "SeaQ.Lemmas.SafeBasics", "SeaQ.Lemmas.Ctx", "SeaQ.Lemmas.RenderCtx"],
+    technique="Lean 4 proof over the statement rendering model: for every piece list (unbounded), the values returned are the parameter pieces' values in order (no hypothesis), and under the decidable Safe discipline the engine-side reading of the parameterised text is the piece-wise one, so the placeholders outside quoted text are ?xn / $1..$n ascending, one per value; Safe itself is a theorem (render_safe, mutual structural induction over the 41 render functions) for every statement of the model without caller-supplied raw text, any bound values; model tied to the crate by differential runs of generated statements through build / build_any / build_collect*, with an independent reference-lexer oracle on the crate's output",
+    level_text="Machine-checked for every piece list, hence for the rendering of every statement of the model (any nesting): (textP ps).values = parameter pieces in order; Safe ps -> segment(text) = piece-wise items, placeholders = expectedMarks n. render_safe: for EVERY statement of the model (unbounded nesting, all five statement kinds, three dialects) whose pieces are individually well-formed (contentOK: no panic marker, representable inline constants, raw text only as digit strings, no CustomWithExpr template; bound values arbitrary) the rendering is Safe, so C01_all_statements holds with no Safe hypothesis. For statements with caller-supplied raw text Safe is evaluated by the model per generated case (plain raw text: must hold). The evidence counts how many generated cases meet the theorem's hypothesis.",
     level_note=_STMT_MODEL_NOTE,
     design_ref="§6 C01",
-    scope="all piece lists / all statements of the model under Safe; generated statements for the tie",
+    scope="all statements of the model without caller-supplied raw text (theorem, no Safe hypothesis); all piece lists under Safe; generated statements for the tie",
 )
 
 PROPS["C02"] = dict(
     groups=["token", "escape", "quote"],
     lean_props=["SeaQ.Props.C02"],
-    lean_obligations=["SeaQ.Lemmas.Scan", "SeaQ.Props.C01"],
+    lean_obligations=["SeaQ.Lemmas.Scan", "SeaQ.Lemmas.SafeBasics", "SeaQ.Lemmas.Ctx", "SeaQ.Lemmas.RenderCtx", "SeaQ.Props.C01"],
     technique="Lean 4 proof over the statement rendering model: for every Safe piece list, reading the parameterised text the way the engine does and re-printing it with each placeholder replaced by the literal of its value gives exactly the inline text (C02_substitute); the crate's entry points (to_string, build, build_any, build_collect, build_collect_any, String and SqlWriterValues writers) are compared with the model's two texts and with each other on every generated statement, rendering twice and Debug-equality before/after rendering included",
-    level_text="Machine-checked: substitute d (textP ps).sql (values.map lit) = some (textI ps) for every Safe piece list (unbounded nesting). Entry-point agreement, repeatability and non-modification are checked on every generated statement (differential / metamorphic, not a theorem). Execution of both forms on SQLite is part of C07.",
+    level_text="Machine-checked: substitute d (textP ps).sql (values.map lit) = some (textI ps) for every Safe piece list (unbounded nesting); C02_all_statements: for every statement of the model without caller-supplied raw text (contentOK; bound values arbitrary) with no Safe hypothesis, via render_safe. Entry-point agreement, repeatability and non-modification are checked on every generated statement (differential / metamorphic, not a theorem). Execution of both forms on SQLite is part of C07.",
     level_note=_STMT_MODEL_NOTE,
     design_ref="§6 C02",
-    scope="all piece lists / all statements of the model under Safe; generated statements for the tie and the entry points",
+    scope="all statements of the model without caller-supplied raw text (theorem, no Safe hypothesis); all piece lists under Safe; generated statements for the tie and the entry points",
 )
 
 from stages import stage_c07
 PROPS["C07"] = dict(
     groups=["token", "escape", "quote"],
     lean_props=["SeaQ.Props.C02"],
-    lean_obligations=["SeaQ.Lemmas.Scan", "SeaQ.Props.C01"],
+    lean_obligations=["SeaQ.Lemmas.Scan", "SeaQ.Lemmas.SafeBasics", "SeaQ.Lemmas.Ctx", "SeaQ.Lemmas.RenderCtx", "SeaQ.Props.C01"],
     extra=[stage_c07],
     technique="Lean 4 statement rendering model (SQLite dialect) tied to the crate by differential runs; the machine-checked part is that the inline and the parameterised form are the same statement (C02_substitute) with the placeholders bound one-to-one (C01_placeholders); what the statement DOES is decided by execution: every generated statement over a fixed schema is run on a real SQLite (python sqlite3) as inline text, as parameterised text with bound values and as an independently written fully explicit rendering of the same builder calls, and rows, RETURNING rows and table contents are compared",
-    level_text="Partial by nature: execution semantics live in the engine. Proved (Lean): both rendering modes are one statement for every Safe rendering. Validated by execution on the engine: acceptance of both forms and equality of effect with the explicit reference rendering, for generated statements over the property's SQLite feature list.",
+    level_text="Partial by nature: execution semantics live in the engine. Proved (Lean): both rendering modes are one statement for every Safe rendering, and every statement without caller-supplied raw text renders Safe (render_safe). Validated by execution on the engine: acceptance of both forms and equality of effect with the explicit reference rendering, for generated statements over the property's SQLite feature list.",
     level_note=_STMT_MODEL_NOTE + " The explicit reference renderer (harness/src/c07.rs, written from SQLite's grammar) and the SQLite library linked into python3 are trusted for the engine stage.",
     design_ref="§6 C07",
     scope="generated statements over a fixed schema; theorem part: all Safe renderings",
